@@ -311,7 +311,7 @@ Definition iflush (disk : bytes) (h : ihandle) : bytes * ihandle :=
 Definition vcap (size : option Z) : Z :=
   match size with
   | None => WBUF
-  | Some n => if n <=? 0 then WBUF else n
+  | Some n => if n <=? 0 then WBUF else Z.min n 1048576   (* fileMaxWriteBuffer: the size is a hint *)
   end.
 
 (* the file methods *)
@@ -327,15 +327,19 @@ Definition istep (disk : bytes) (h : ihandle) (o : op) : bytes * ihandle * res :
     end
   else
   match o with
+  (* a read first writes out what a buffered writer holds (flushPending) *)
   | ORead fs =>
     if negb (i_rd h) then (disk, h, RFail) else
-    let (h', r) := ireads disk h fs [] in (disk, h', r)
+    let (d1, h1) := iflush disk h in
+    let (h', r) := ireads d1 h1 fs [] in (d1, h', r)
   | OLines k =>
     if negb (i_rd h) then (disk, h, RFail) else
-    let (h', r) := ilines disk h k [] in (disk, h', r)
+    let (d1, h1) := iflush disk h in
+    let (h', r) := ilines d1 h1 k [] in (d1, h', r)
   | ONext k =>
     if negb (i_rd h) then (disk, h, RUnsupported) else
-    let (h', r) := ilines disk h k [] in (disk, h', r)
+    let (d1, h1) := iflush disk h in
+    let (h', r) := ilines d1 h1 k [] in (d1, h', r)
   | OWrite ss =>
     if negb (i_wr h) then (disk, h, RFail) else
     let (d', h') := fold_left iwrite1 ss (disk, abandon h) in (d', h', RTrue)
